@@ -91,6 +91,7 @@ def run(chk, tier):
     chk.guarded(c10.r_own_ranges, P, tier)
     chk.guarded(r_month_from_str, P, tier)
     chk.guarded(r_plain_year, P, tier)
+    chk.guarded(c10.r_fraction_scale, P, tier)
     chk.assume("sign/width of out-of-range years, the 0/3/6/9 fraction digits, second 60 and offset padding (the round trip itself) are NOT decided")
     return {
         "explanation": "Narrow claim for C09: the default writers and the readers agree structurally. The separator/placeholder skeleton written by Debug (and Display) of "
